@@ -170,11 +170,17 @@ func run(r *ev.Run, cfg props.Cfg) {
 			rng := gen.NewRand(cfg.Seed, fmt.Sprintf("c10/%d", wk))
 			for i := 0; i < per; i++ {
 				n := 2 + rng.Intn(2)
+				if rng.Intn(12) == 0 {
+					n = []int{11, 12, 25, 101}[rng.Intn(4)] // key names depend on the participant count
+				}
 				app := gen.AppKind(rng.Intn(3))
 				w := mexplore.NewWorld(rng, n, rng.Intn(n), app, 1+rng.Intn(2))
 				sc := &scenario{w: w, length: 5 + rng.Intn(36)}
-				for p := 0; p < n-1; p++ {
+				for p := 0; p < n-1 && p < 4; p++ {
 					sc.peers = append(sc.peers, gen.WireAddrAny(rng))
+				}
+				if rng.Intn(8) == 0 {
+					sc.peers = append(sc.peers, sc.peers[0]) // one node in two roles
 				}
 				if rng.Intn(3) == 0 {
 					id := gen.ID(rng)
